@@ -9,6 +9,7 @@
 #include <unicode/ustream.h>
 
 #include <algorithm>
+#include <cstdio>
 #include <string>
 #include <iostream>
 
@@ -56,6 +57,12 @@ int main(int argc, char *argv[]) {
       std::swap(cur, tmp);
     }
     std::cout << *cur << '\n';
+  }
+  // With stdio synchronisation (the default) libstdc++ reports a failed
+  // read(2) as end of file; only the C stream remembers the error.
+  if (std::cin.bad() || std::ferror(stdin)) {
+    std::cerr << "Error reading from stdin\n";
+    return 1;
   }
   // std::cout never throws: a failed write only shows in the stream state.
   std::cout.flush();
